@@ -45,10 +45,11 @@ example : (match run {} C01.f10Trace with
     | .error _ => []) = [(.delete, []), (.takeover, [3]), (.create, [1])] := by decide
 
 /-- AST facts: the token field is written only by `becomeLeader` (and the constructor); the takeover write publishes a
-    new uuid; a promotion is refused while the instance already leads (no second token within a term). -/
+    new uuid; a promotion is refused while the instance already leads (no second token within a term); `Token()` — which the
+    heartbeat reads, after its leadership re-check, to build the refresh — returns the stored token whatever the flag says. -/
 theorem shape :
     Gen.tokenWriters = ["kvElection.becomeLeader", "newKVElection"] ∧ Gen.takeoverFreshToken = true ∧
-    Gen.becomeLeaderRefusesWhenLeading = true := by decide
+    Gen.becomeLeaderRefusesWhenLeading = true ∧ Gen.tokenAccessorIsTheStoredToken = true := by decide
 
 
 end NLE.Theorems.C05
